@@ -1,6 +1,7 @@
 package main
 
 import (
+	"path/filepath"
 	"context"
 	"flag"
 	"fmt"
@@ -190,29 +191,51 @@ func (p *Program) runJobsL(fns []*ssa.Function, lemmas []*Contract, cfg SolverCf
 		todo   []*Obligation
 		script string
 	}
-	var chunks []chunk
 	todos := make([][]*Obligation, len(jobs))
 	for i, j := range jobs {
 		todos[i] = pendingObls(j)
-		for k := 0; k < len(todos[i]); k += chunkSize {
-			end := k + chunkSize
-			if end > len(todos[i]) {
-				end = len(todos[i])
+	}
+	// stage 1a: hypotheses without their quantified parts (the deterministic instances remain); stage 1b: with them
+	for _, dropQ := range []bool{true, false} {
+		var chunks []chunk
+		for i, j := range jobs {
+			var pend []*Obligation
+			for _, o := range todos[i] {
+				if o.Status == "proved" || (o.Status == "failed" && o.Kind == "pre-sat") {
+					continue
+				}
+				if dropQ && o.Kind == "pre-sat" {
+					continue
+				}
+				pend = append(pend, o)
 			}
-			part := todos[i][k:end]
-			chunks = append(chunks, chunk{j, part, buildIncremental(j, part, incrementalTimeoutMs)})
+			for k := 0; k < len(pend); k += chunkSize {
+				end := k + chunkSize
+				if end > len(pend) {
+					end = len(pend)
+				}
+				part := pend[k:end]
+				chunks = append(chunks, chunk{j, part, buildIncremental(j, part, incrementalTimeoutMs, dropQ)})
+			}
 		}
+		for _, c := range chunks {
+			wg.Add(1)
+			go func(c chunk) {
+				defer wg.Done()
+				sem <- struct{}{}
+				defer func() { <-sem }()
+				solvePrepared(c.j, c.script, c.todo, cfg)
+				if dropQ {
+					for _, o := range c.todo {
+						if o.Status == "proved" {
+							o.Solver = "z3-5.1.0-noext (instances only)"
+						}
+					}
+				}
+			}(c)
+		}
+		wg.Wait()
 	}
-	for _, c := range chunks {
-		wg.Add(1)
-		go func(c chunk) {
-			defer wg.Done()
-			sem <- struct{}{}
-			defer func() { <-sem }()
-			solvePrepared(c.j, c.script, c.todo, cfg)
-		}(c)
-	}
-	wg.Wait()
 	// portfolio pass (script building is sequential, solver runs parallel)
 	type pf struct {
 		j      *Job
@@ -220,6 +243,7 @@ func (p *Program) runJobsL(fns []*ssa.Function, lemmas []*Contract, cfg SolverCf
 		script string
 		split  []string
 		sliced []string
+		nq     string
 	}
 	var pfs []pf
 	for i, j := range jobs {
@@ -230,6 +254,9 @@ func (p *Program) runJobsL(fns []*ssa.Function, lemmas []*Contract, cfg SolverCf
 			q := pf{j: j, o: o, script: buildSingle(j, o, cfg.TimeoutMs, true)}
 			if o.Kind != "pre-sat" && len(j.Facts) > 400 {
 				q.sliced = append(q.sliced, buildSliced(j, o, 5000, 2))
+			}
+			if o.Kind != "pre-sat" {
+				q.nq = buildSingleQ(j, o, cfg.TimeoutMs/2, false, true)
 			}
 			for _, c := range splitCases(j) {
 				q.split = append(q.split, buildSingle(j, o, cfg.TimeoutMs, true, c...))
@@ -262,6 +289,42 @@ func (p *Program) runJobsL(fns []*ssa.Function, lemmas []*Contract, cfg SolverCf
 			}
 			if q.o.Status == "proved" {
 				return
+			}
+			if q.nq != "" {
+				// hypotheses reduced to their deterministic instances: only `unsat` is used
+				if cfg.Keep {
+					os.MkdirAll(cfg.Dir, 0o755)
+					os.WriteFile(filepath.Join(cfg.Dir, sanitizeFile(q.o.Name)+".nq.smt2"), []byte(q.nq), 0o644)
+				}
+				type ans struct {
+					name, a string
+					secs    float64
+				}
+				ch := make(chan ans, 2)
+				ctx, cancel := context.WithTimeout(context.Background(), time.Duration(cfg.TimeoutMs/2+2000)*time.Millisecond)
+				for _, inc := range []bool{false, true} {
+					go func(inc bool) {
+						t0 := time.Now()
+						sc, name := q.nq, "z3-5.1.0-noext (instances only)"
+						if inc {
+							sc, name = strings.Replace(sc, "(check-sat)", "(push 1)\n(check-sat)", 1), "z3-5.1.0-noext-inc (instances only)"
+						}
+						out, _ := runSolver(ctx, "z3-new", []string{"-in", "smt.array.extensional=false"}, sc)
+						a, _ := solverAnswer(out)
+						ch <- ans{name, a, time.Since(t0).Seconds()}
+					}(inc)
+				}
+				for k := 0; k < 2; k++ {
+					r := <-ch
+					if r.a == "unsat" {
+						q.o.Status, q.o.Solver, q.o.Secs = "proved", r.name, r.secs
+						break
+					}
+				}
+				cancel()
+				if q.o.Status == "proved" {
+					return
+				}
 			}
 			portfolioScript(q.j, q.o, q.script, cfg)
 			if q.o.Status == "unknown" && len(q.split) > 0 {
